@@ -4,29 +4,30 @@ Document level of the markdown scan, the CLI/MCP agreement lemmas and `jsonable`
 import Octave.Lemmas.Markdown
 namespace Octave
 
-theorem mdTop_scan (fmt : Value → Str) (n : Node) (st : List Str)
-    (hs : noSectionsNode n = true) (ho : mdOrderedNode n = true) :
+theorem mdTop_scan (fmt : Value → Str) (n : Node) (st : List Str) (ho : mdOrderedNode n = true) :
     mdScan st (mdTop fmt n) = n.leaves.map (mdLeaf fmt []) := by
   cases n with
   | assign a k v => simp [mdTop, mdScan, Node.leaves, mdLeaf]
   | block a k cs =>
-    simp only [noSectionsNode] at hs
     simp only [mdOrderedNode, Bool.and_eq_true] at ho
-    have h := mdChildren_scan fmt cs 3 [k] [k] false (by omega) (by simp) (by simp) (fun _ => rfl) hs ho.2 ho.1
+    have h := mdChildren_scan fmt cs 3 [k] [k] false (by omega) (by simp) (by simp) (fun _ => rfl) ho.2 ho.1
     simp only [mdTop, mdScan, Node.leaves, map_mdLeaf_pre]
     simpa using h.1
-  | sect a i k cs => simp [noSectionsNode] at hs
+  | sect a i k cs =>
+    simp only [mdOrderedNode, Bool.and_eq_true] at ho
+    have h := mdChildren_scan fmt cs 3 [k] [k] false (by omega) (by simp) (by simp) (fun _ => rfl) ho.2 ho.1
+    simp only [mdTop, mdScan, Node.leaves, map_mdLeaf_pre]
+    simpa using h.1
   | comment a t => simp [mdTop, mdScan, Node.leaves]
 
 theorem mdTops_scan (fmt : Value → Str) : ∀ (ns : List Node) (st : List Str),
-    noSectionsList ns = true → mdOrderedList ns = true →
+    mdOrderedList ns = true →
     mdScan st ((ns.map (mdTop fmt)).flatten) = (leavesList ns).map (mdLeaf fmt [])
-  | [], st, _, _ => by simp [mdScan, leavesList]
-  | n :: ns, st, hs, ho => by
-    simp only [noSectionsList, Bool.and_eq_true] at hs
+  | [], st, _ => by simp [mdScan, leavesList]
+  | n :: ns, st, ho => by
     simp only [mdOrderedList, Bool.and_eq_true] at ho
     simp only [List.map_cons, List.flatten_cons, mdScan_append, leavesList, List.map_append,
-      mdTop_scan fmt n st hs.1 ho.1, mdTops_scan fmt ns _ hs.2 ho.2]
+      mdTop_scan fmt n st ho.1, mdTops_scan fmt ns _ ho.2]
 
 theorem mdBullets_scan (fmt : Value → Str) (st : List Str) (m : List (Str × Value)) :
     mdScan st (m.map fun kv => MdLine.bullet kv.1 (fmt kv.2)) = m.map (fun kv => (st ++ [kv.1], fmt kv.2))
@@ -47,10 +48,10 @@ theorem mdMeta_scan (fmt : Value → Str) (m : List (Str × Value)) :
     simp [mdScan, mdScan_append, hb.1, mdLeaf, List.map_map, Function.comp_def]
 
 /-- Under the guards the markdown scan finds exactly the document's leaves, each with its formatted value. -/
-theorem mdLeaves_eq (fmt : Value → Str) (d : Doc) (hs : noSections d = true) (ho : mdOrdered d = true) :
+theorem mdLeaves_eq (fmt : Value → Str) (d : Doc) (ho : mdOrdered d = true) :
     mdLeaves (mdLines fmt d) = (Doc.leaves d).map (mdLeaf fmt []) := by
   simp only [mdLeaves, mdLines, List.cons_append, List.nil_append, mdScan, mdScan_append, Doc.leaves, List.map_append,
-    mdMeta_scan, mdTops_scan fmt d.sections _ hs ho]
+    mdMeta_scan, mdTops_scan fmt d.sections _ ho]
 
 /-! ### the two copies of the converters agree where their code does not differ -/
 
@@ -95,7 +96,9 @@ theorem nodeEntry_cli_eq : ∀ n : Node, nodeValuesAll (fun v => !v.isZone) n = 
   | .block _ k cs, h => by
     simp only [nodeValuesAll] at h
     simp [nodeEntry, nodeEntries_cli_eq cs h]
-  | .sect _ _ _ _, _ => by simp [nodeEntry]
+  | .sect _ _ k cs, h => by
+    simp only [nodeValuesAll] at h
+    simp [nodeEntry, nodeEntries_cli_eq cs h]
   | .comment _ _, _ => by simp [nodeEntry]
 theorem nodeEntries_cli_eq : ∀ ns : List Node, nodeValuesAllL (fun v => !v.isZone) ns = true →
     nodeEntries false ns = nodeEntries true ns
@@ -130,7 +133,9 @@ theorem mdNode_cli_eq : ∀ (n : Node) (lvl : Nat), nodeValuesAll Value.isScalar
   | .block _ k cs, lvl, h => by
     simp only [nodeValuesAll] at h
     simp [mdNode, mdChildren_cli_eq cs (lvl + 1) h]
-  | .sect _ _ _ _, _, _ => by simp [mdNode]
+  | .sect _ _ k cs, lvl, h => by
+    simp only [nodeValuesAll] at h
+    simp [mdNode, mdChildren_cli_eq cs (lvl + 1) h]
   | .comment _ _, _, _ => by simp [mdNode]
 theorem mdChildren_cli_eq : ∀ (ns : List Node) (lvl : Nat), nodeValuesAllL Value.isScalar ns = true →
     mdChildren mdValueCli lvl ns = mdChildren mdValue lvl ns
@@ -148,7 +153,9 @@ theorem mdTop_cli_eq (n : Node) (h : nodeValuesAll Value.isScalar n = true) : md
   | block a k cs =>
     simp only [nodeValuesAll] at h
     simp [mdTop, mdChildren_cli_eq cs 3 h]
-  | sect a i k cs => simp [mdTop]
+  | sect a i k cs =>
+    simp only [nodeValuesAll] at h
+    simp [mdTop, mdChildren_cli_eq cs 3 h]
   | comment a t => simp [mdTop]
 
 theorem mdTops_cli_eq : ∀ ns : List Node, nodeValuesAllL Value.isScalar ns = true →
@@ -224,7 +231,7 @@ mutual
 theorem nodeEntry_jsonable : ∀ n : Node, jsonableP (nodeEntry true n) = true
   | .assign _ k v => by simp [nodeEntry, jsonableP, convertValue_jsonable v]
   | .block _ k cs => by simp [nodeEntry, jsonableP, jsonable, jsonableP_dictOf _ (nodeEntries_jsonable cs)]
-  | .sect _ _ _ _ => by simp [nodeEntry, jsonableP]
+  | .sect _ _ k cs => by simp [nodeEntry, jsonableP, jsonable, jsonableP_dictOf _ (nodeEntries_jsonable cs)]
   | .comment _ _ => by simp [nodeEntry, jsonableP]
 theorem nodeEntries_jsonable : ∀ ns : List Node, jsonableP (nodeEntries true ns) = true
   | [] => by simp [nodeEntries, jsonableP]
